@@ -93,7 +93,11 @@ impl MultiPeerBackend for SubSocketBackend {
             .collect();
 
         for message in subs_msgs {
-            send_queue.send(Message::Message(message)).await.unwrap();
+            if let Err(e) = send_queue.send(Message::Message(message)).await {
+                // The connection failed before it was usable: do not register the peer.
+                log::debug!("Error replaying subscriptions to new peer: {:?}", e);
+                return;
+            }
         }
 
         self.peers
